@@ -4,6 +4,7 @@ import MTfitVerif.Model.Evidence
 import MTfitVerif.Model.Polarity
 import MTfitVerif.Model.RatioPdf
 import MTfitVerif.Model.Forward
+import MTfitVerif.Model.SampleStore
 /- dispatch table of the executable model -/
 namespace MTfitVerif.Driver
 open MTfitVerif Proto
@@ -187,7 +188,34 @@ def opForward : P String := do
     pure (s!"{idx.length} " ++ " ".intercalate (idx.map toString) ++ s!" {rows.length} {ncols} "
       ++ outLPs rows.flatten ++ s!" {n}")
 
+/-- `sample init nops (k nrows nTried (tok sf vals[nrows])×k)×nops discard nSamples`
+    → `n i cap nview toks… has [nk toks… sfs… probs… lnpdf…]` -/
+def opSample : P String := do
+  let init ← nat; let nops ← nat
+  let batches ← many nops (do
+    let k ← nat; let nr ← nat; let nt ← nat
+    let cs ← many k (do
+      let t ← nat; let sf ← nat; let col ← logps nr
+      pure ({ tok := t, col := col, sf := sf } : SampleStore.Cand Float))
+    pure (cs, nt))
+  let discard ← flt; let nS ← flt; done
+  let s := batches.foldl (fun s b => SampleStore.append s b.1 b.2) (SampleStore.empty init : SampleStore.Store Float)
+  let v := SampleStore.view s
+  let head := s!"{s.n} {s.i} {s.cols.length} {v.length} " ++ " ".intercalate (v.map fun x => toString x.1)
+  match SampleStore.output s discard nS with
+  | none => pure (head ++ " 0")
+  | some o =>
+    pure (head ++ s!" 1 {o.toks.length} " ++ " ".intercalate (o.toks.map toString) ++ " "
+      ++ " ".intercalate (o.sf.map toString) ++ " " ++ outFs o.probability ++ " " ++ outLPs o.lnPdf)
+
+/-- `iterstop maxSamples nb sizes…` → batches consumed -/
+def opIterStop : P String := do
+  let m ← nat; let nb ← nat; let bs ← many nb nat; done
+  pure (toString (SampleStore.runIteration m 0 bs))
+
 def table : List (String × P String) := [
+  ("sample", opSample),
+  ("iterstop", opIterStop),
   ("stationangles", opStationAngles),
   ("polmatrix", opPolMatrix),
   ("polprobmatrix", opPolProbMatrix),
